@@ -5,7 +5,6 @@ import (
 	"fmt"
 	"os"
 	"path/filepath"
-	"regexp"
 	"runtime"
 	"sort"
 	"strconv"
@@ -48,12 +47,12 @@ func (f findings) failFuzz(t *testing.T, id string) {
 	}
 }
 
-var frameRe = regexp.MustCompile(`^([^\s(][^\s]*?)\(`)
-
 // panicSite turns the text produced by vx.Recover ("<panic value>\n<stack from panic()>")
-// into a short structural label "<kind>@<function>": the kind of the panic and the first
-// non-runtime frame below the panic call. It deliberately drops the message and all
-// argument values.
+// into a short structural label "<kind>@<function>": the kind of the panic and the
+// innermost ibc-go function on the stack (or, when the panic is raised below a library
+// call made from test code, the innermost non-runtime frame). It deliberately drops the
+// message and all argument values, so one defect has one label whatever the input and
+// whichever entry point reached it.
 func panicSite(msg string) string {
 	first, rest, _ := strings.Cut(msg, "\n")
 	kind := "explicit"
@@ -73,37 +72,49 @@ func panicSite(msg string) string {
 	case strings.Contains(first, "reflect"):
 		kind = "reflect"
 	}
-	site := "unknown"
+	var firstAny, firstIBC string
 	for _, ln := range strings.Split(rest, "\n") {
 		if strings.HasPrefix(ln, "\t") || ln == "" {
 			continue
 		}
-		m := frameRe.FindStringSubmatch(ln)
-		if m == nil {
+		i := strings.LastIndex(ln, "(")
+		if i <= 0 {
 			continue
 		}
-		fn := m[1]
-		if fn == "panic" || strings.HasPrefix(fn, "runtime.") || strings.HasPrefix(fn, "runtime/") {
+		fn := ln[:i]
+		if fn == "panic" || strings.HasPrefix(fn, "runtime.") || strings.HasPrefix(fn, "runtime/") || strings.HasPrefix(fn, "created by") {
 			continue
 		}
-		// keep the last two path elements: pkg.(*T).Method
-		if i := strings.LastIndex(fn, "/"); i >= 0 {
-			j := strings.LastIndex(fn[:i], "/")
-			fn = fn[j+1:]
+		if strings.Contains(fn, "/verifx/") {
+			break // test code: nothing below is code under test
 		}
-		site = fn
-		break
+		if firstAny == "" {
+			firstAny = fn
+		}
+		if strings.HasPrefix(fn, "github.com/cosmos/ibc-go/") {
+			firstIBC = fn
+			break
+		}
 	}
+	site := firstIBC
+	if site == "" {
+		site = firstAny
+	}
+	if site == "" {
+		site = "unknown"
+	}
+	site = strings.TrimPrefix(site, "github.com/cosmos/ibc-go/v11/")
+	site = strings.TrimPrefix(site, "modules/")
 	return kind + "@" + site
 }
 
-// noPanic runs f and appends a finding "panic:<what>:<site>" if it panics.
+// noPanic runs f and appends a finding "panic:<kind>@<site>" if it panics (what = entry point, for the message).
 func noPanic(out *findings, what string, input func() string, f func()) (ok bool) {
 	panicked, msg := vx.Recover(f)
 	if !panicked {
 		return true
 	}
-	out.addf("panic:"+what+":"+panicSite(msg), "%s panicked on input %s: %s", what, input(), msg)
+	out.addf("panic:"+panicSite(msg), "%s panicked on input %s: %s", what, input(), msg)
 	return false
 }
 
